@@ -3,7 +3,8 @@
 R-LIFT: cmp* mask lane i = predicate(self[i], rhs[i]); select lane i = ite(mask[i], a[i], b[i]) (bit-exact).
 Mask types (BVec2/3/4, BVec3A/4A in every backend): & | ^ ! are the lane-wise connectives; any/all/bitmask/
 test/set/==/conversions/fmt are functions of exactly the N boolean lanes; R-WHO: every function returning a
-SIMD mask returns canonical lanes (all-ones or zero), and no public conversion injects a raw register."""
+SIMD mask returns canonical lanes (all-ones or zero), and no public conversion injects a raw register.  TRUE / FALSE constants, Hash (a function
+of the lanes only) and the text Debug / Display print around the lanes (BVecNA equals BVecN up to the type name) are compared as well."""
 import re
 import terms as tm
 from terms import const, ite, mk
